@@ -243,12 +243,19 @@ PROPS = {
     ),
     "C05": dict(
         level="proof",
-        modules=["Exmex.Props.C02Deep", "Exmex.Props.C03"],
-        theorems=["Exmex.C02.deep_compile_sound", "Exmex.C03.fromDeep_sound"],
-        level_text=("the derivative engine (value/derivative pairs reduced in priority order, chain rule over the unary composition, rule table by name) is modelled in Lean "
-                    "(Model/Diff.lean) and tied to the code by exact symbolic correspondence of the derivative expressions; the kernel-checked part is the machinery every "
-                    "rule uses (folding, conversion, any-order evaluation); that the rules are the textbook ones is judged against an independent reference (symbolic "
-                    "textbook differentiation evaluated in f64) at tame points - partial, see DESIGN"),
+        modules=["Exmex.Props.C05", "Exmex.Props.C02Deep", "Exmex.Props.C03"],
+        theorems=["Exmex.C05.partial_sound", "Exmex.C05.partial_norule", "Exmex.C05.Demo.demo", "Exmex.C02.deep_compile_sound", "Exmex.C03.fromDeep_sound"],
+        level_text=("kernel-checked (partial_sound): for every deep expression over + - * / ^ and the differentiable unary operators, every variable index and every "
+                    "assignment, the expression returned by partial differentiation has the same variable list and evaluates to the derivative component of evaluating the "
+                    "same expression over dual numbers with the textbook rules (Spec/Dual.lean: sum, product, quotient, general power rule, chain rule with the table of outer "
+                    "derivatives), whenever the dual evaluation stays inside the domain of the rules (b != 0 for a/b, a != 0 for a^b), over any arithmetic satisfying the listed "
+                    "laws of exact arithmetic (0+x, 1*x, x/1, x^1, x^0, 0/x, 0^e, commutative-associative *, no zero divisors); the engine (value/derivative pairs reduced in "
+                    "priority order, chain rule along the unary composition, neutral-element shortcuts, sorted union of variables, folding) is covered, under the invariants "
+                    "every API result satisfies (Named, Folded, Scoped; machine-checked counterexamples show each is needed). partial_norule: an operator without a rule makes "
+                    "differentiation fail. Demo: the hypotheses are satisfiable (x*x over Nat). Not in the theorem: that dual numbers compute derivatives of real functions "
+                    "(textbook), floats (rounding), higher orders as jets (each further derivative is again covered as a derivative of the previous expression). The model is tied "
+                    "to the code by exact symbolic correspondence of the derivative expressions, and the implementation is judged against an independent reference "
+                    "(symbolic textbook differentiation evaluated in f64) at tame points"),
         rule="expression trees over + - * / ^ (variable exponents), unary +/-, sqrt ln log log2 log10 exp and the (inverse) trigonometric and hyperbolic functions, plus 0-10% operators without rule; index sequences of length 0..3; flat and deep; previously differentiated and substituted expressions; symbolic: exact comparison of the derivative expression with the Lean model; f64: value of the derivative at 3 tame points against textbook differentiation; non-trivial = at least one differentiation step; distinct by request hash",
         kinds=[dict(kind="hist", quick=8000, thorough=250000, args=["diff"], corr=["pool", "steps"], oracle=[], nontrivial=lambda req, A, B: "p:" in req.split("\t")[5]),
                dict(kind="histf", quick=10000, thorough=300000, args=["diff"], no_model=True, corr=[], oracle_const=[("r", "ok")], nontrivial=lambda req, A, B: "p:" in req.split("\t")[3])],
